@@ -486,6 +486,18 @@ def _counting_receiver(prog, res, fi, c, k, tag, sends) -> None:
             ]
             if ((in_body and is_pos) or (in_else and not is_pos)) and proc_other:
                 ok_branch = True
+            if not in_body and not in_else and not x.orelse and x.body and isinstance(x.body[-1], (ast.Continue,)):
+                # mirrored form: `if payload is not SENTINEL: hand over; continue` and the decrement in the rest of the block
+                pmx = parents_map(fn)
+                par = pmx.get(id(x))
+                for attr in ("body", "orelse"):
+                    blk = getattr(par, attr, None)
+                    if isinstance(blk, list) and x in blk:
+                        rest = blk[blk.index(x) + 1 :]
+                        dec_after = any(y is decs[0] for s_ in rest for y in ast.walk(s_))
+                        hands_on = any((isinstance(y, ast.Call) and isinstance(y.func, ast.Attribute) and y.func.attr == "process_patches") or isinstance(y, (ast.Yield, ast.YieldFrom)) for s_ in x.body for y in ast.walk(s_))
+                        if dec_after and hands_on and not is_pos:
+                            ok_branch = True
     # initial value = number of sending ranks
     init = [v for v in all_def_values(fn, counter) if v is not None and not isinstance(v, ast.BinOp)]
     if init and isinstance(init[0], ast.Name) and init[0].id not in fi.param_names():
